@@ -124,6 +124,11 @@ fn http_response_seeds() -> Vec<Vec<Vec<u8>>> {
         &["discovery::get_server_keys::v2", "200", j, r##"{"server_name":"b.c","verify_keys":{"ed25519:abc123":{"key":"VGhpcyBzaG91bGQgYmUgYSByZWFsIGVkMjU1MTkgcGF5bG9hZA"}},"old_verify_keys":{"ed25519:0ldk3y":{"expired_ts":1532645052628,"key":"VGhpcyBzaG91bGQgYmUgeW91ciBvbGQga2V5J3MgZWQyNTUxOSBwYXlsb2FkLg"}},"signatures":{"b.c":{"ed25519:abc123":"VGhpcyBzaG91bGQgYWN0dWFsbHkgYmUgYSBzaWduYXR1cmU"}},"valid_until_ts":1652262000000}"##],
         &["membership::create_join_event::v2", "200", j, r##"{"auth_chain":[{"type":"m.room.create"}],"state":[{"a":1}],"event":{"type":"m.room.member"},"members_omitted":true,"servers_in_room":["b.c"]}"##],
         &["authenticated_media::get_content::v1", "200", "content-type: image/png\ncontent-disposition: attachment; filename=\"a b.png\"; filename*=utf-8''a%20b.png", "\u{89}PNG"],
+        // federation media: multipart/mixed bodies (metadata part, then the file or a Location)
+        &["ruma_federation_api::authenticated_media::get_content::v1", "200", "content-type: multipart/mixed; boundary=abc", "\r\n--abc\r\nContent-Type: application/json\r\n\r\n{}\r\n--abc\r\nContent-Type: text/plain\r\nContent-Disposition: attachment; filename=a.txt\r\n\r\nsome plain text\r\n--abc--"],
+        &["ruma_federation_api::authenticated_media::get_content::v1", "200", "content-type: multipart/mixed; boundary=abc", "--abc\nContent-Type: application/json\n\n{}\r\n--abc\nLocation: https://cdn.example/x\n\n\r\n--abc--\r\n"],
+        &["ruma_federation_api::authenticated_media::get_content_thumbnail::v1", "200", "content-type: multipart/mixed; boundary=\"x y\"", "preamble\r\n--x y\r\nContent-Type: application/json\r\n\r\n{}\r\n--x y\r\nContent-Type: image/png\r\n\r\n\u{89}PNG\r\n--x y--epilogue"],
+        &["ruma_federation_api::authenticated_media::get_content::v1", "200", "content-type: multipart/mixed; boundary=abc", "--abc\r\n--abc\r\n--abc--"],
         &["media::get_content::v3", "200", "content-type: text/plain\ncontent-disposition: inline; filename=x.txt\ncross-origin-resource-policy: cross-origin", "hello"],
         &["account::whoami::v3", "401", j, r##"{"errcode":"M_UNKNOWN_TOKEN","error":"Unrecognised access token","soft_logout":true}"##],
         &["room::create_room::v3", "429", j, r##"{"errcode":"M_LIMIT_EXCEEDED","error":"Too many requests","retry_after_ms":2000}"##],
@@ -229,6 +234,7 @@ fn entries() -> Vec<Entry> {
         Entry { id: 73, name: "hash_and_sign_event", kinds: &[Text, Text, Json, Sel], f: e_hash_and_sign, seeds: || sp(&[&["domain", "1", SIGNED, "5"], &["domain", "1", EV_MEMBER, "11"], &["domain", "1", EV_POWER, "1"]]) },
         Entry { id: 74, name: "content_hash / reference_hash / canonical_json", kinds: &[Json, Sel], f: e_hashes, seeds: || sp(&[&[SIGNED, "1"], &[SIGNED, "4"], &[EV_CREATE, "11"]]) },
         Entry { id: 75, name: "redact", kinds: &[Json, Sel], f: e_redact, seeds: || sp(&[&[EV_MEMBER, "9"], &[EV_MEMBER, "11"], &[EV_POWER, "1"], &[EV_CREATE, "11"], &[EV_JOIN_RULES, "8"]]) },
+        Entry { id: 77, name: "content sub-structures read on their own (Restricted, AllowRule, JoinRule, power levels, member)", kinds: &[Json, Sel], f: e_content_parts, seeds: || sp(&[&[r##"{"allow":[{"type":"m.room_membership","room_id":"!a:b.c"},{"type":"x.custom","a":1},5]}"##, "0"], &[r##"{"type":"m.room_membership","room_id":"!a:b.c"}"##, "1"], &[r##"{"join_rule":"restricted","allow":[{"type":"m.room_membership","room_id":"!a:b.c"}]}"##, "2"], &[r##"{"users":{"@a:b.c":100},"events":{"m.room.name":"50"},"ban":"+50","notifications":{"room":20}}"##, "3"], &[r##"{"membership":"join","displayname":null,"avatar_url":""}"##, "4"], &[r##"{"join_rule":"knock_restricted","allow":[1,{"type":"m.room_membership","room_id":"!a:b.c"}]}"##, "5"]]) },
         Entry { id: 76, name: "Ed25519KeyPair::from_der (ring-compat)", kinds: &[Bytes, Text], f: e_from_der, seeds: seeds_from_der },
         // ---- HTML ---------------------------------------------------------------------------------
         Entry { id: 80, name: "sanitize_html / remove_html_reply_fallback / Html::{parse, sanitize, to_string}", kinds: &[Html, Sel], f: e_sanitize_html, seeds: || sp(&[&[HTML1, "0"], &[HTML1, "1"], &[HTML1, "2"], &[HTML1, "3"], &[HTML1, "4"], &["<p>a<b>c</p>d</b><svg><a xlink:href='x'>t</a></svg><math><mi>x</mi></math><template><p>t</p></template>", "4"], &[HTML_TYPED, "4"]]) },
